@@ -406,6 +406,9 @@ def check_run(ctx, rec, history, baseline=None, region_only=False, expect_ok=Non
         if old and old in open(lp).read():
             bad_b.append(('log-appended-to-file-of-earlier-run',
                           f'log file {lp} still starts with the text an earlier run left there'))
+    if job['stage'] == 'assign':
+        # report the dependence of the result first (order of reporting only)
+        bad_b.sort(key=lambda x: 0 if x[0] in RESULT_CLASSES else 1)
     seen = set()
     for cls, what in bad_b:
         if cls in seen:
